@@ -6,6 +6,13 @@ ids = [p['id'] for p in props]
 
 # id -> (level, technique, text, note)
 CLAIMED = {
+ "C13": ("exploration", "snapshot-equality monitor over listings, row multisets and index-driven probe queries around BEGIN .. ROLLBACK/COMMIT",
+         "Observables taken before BEGIN (resp. before COMMIT) are compared with those after ROLLBACK (resp. COMMIT) for random in-transaction histories of DML and DDL.",
+         "Six fixed probe queries stand for 'any query, including index-driven ones'."),
+ "C14": ("exploration", "stack-of-snapshots reference model for SAVEPOINT / RELEASE / ROLLBACK TO inside one transaction",
+         "Random interleavings of DML and savepoint operations are checked against a stack model: table contents after ROLLBACK TO, s stays usable, later savepoints destroyed, RELEASE changes no data, unknown names rejected.",
+         "Live savepoint names are kept unique and only the top savepoint is released (the statement leaves other cases open)."),
+
  "C09": ("exploration", "pre-state clone + the engine's own SELECT as reference for which rows / which new values; probes for PK fast path, bulk transfer, truncate path",
          "Random DML histories over five table shapes; every UPDATE/DELETE/INSERT is checked against the rows and SET values that SELECT reports on a clone of the pre-state, and everything else must be unchanged.",
          "Row identity via the id column."),
